@@ -127,6 +127,23 @@ pub fn run(args: &Args) -> i32 {
         };
         check_point(&tabs, nt - 1, z, t, None, loc);
     });
+    // history independence: lookups that jump back and forth across every slice boundary, in ONE case
+    // (one thread, fixed order), each compared with the table (knot reproduction, Ok/Err class)
+    rep.run("lookup-history", 1, 300, true, "a single sequential walk: for every slice boundary b_k the z sequence [b_k+1ulp, b_k, b_k-1ulp, b_k, b_(k+1), b_k, -b_k, b_k+1ulp, b_k] x times {first knot, a middle knot, last knot of slice k, last knot of slice k+1}; every lookup is judged on its own against the table, so an answer that depends on the previous lookup shows up", |_idx, loc| {
+        for k in 0..tabs.len() - 1 {
+            let b = tabs[k].1;
+            let zseq = [next_up(b), b, next_down(b), b, tabs[k + 1].1, b, -b, next_up(b), b];
+            let ta = &tabs[k].0;
+            let tb = &tabs[k + 1].0;
+            for t in [ta[0].0, ta[ta.len() / 2].0, ta[ta.len() - 1].0, tb[tb.len() - 1].0] {
+                for z in zseq {
+                    let s = ref_slice(&tabs, z.abs()).unwrap();
+                    let knot = tabs[s].0.iter().position(|e| e.0.to_bits() == t.to_bits());
+                    check_point(&tabs, s, z, t, knot, loc);
+                }
+            }
+        }
+    });
     rep.finish()
 }
 
